@@ -6,7 +6,7 @@ wt=/var/tmp/mutwt.$$
 git -C /repo worktree add -q --detach "$wt" HEAD || exit 2
 ( cd "$wt" && git apply "$patch" ) || { git -C /repo worktree remove --force "$wt"; exit 2; }
 for c in "$@"; do
-  out=$(cd /verif && FURAX_REPO="$wt" timeout 3000 ./check "$c" --tier "${TIER:-quick}" 2>&1 | grep -v "Converged\|64-bit")
+  out=$(cd /verif && VERIF_EVIDENCE_DIR=/var/tmp/mut-evidence FURAX_REPO="$wt" timeout 3000 ./check "$c" --tier "${TIER:-quick}" 2>&1 | grep -v "Converged\|64-bit")
   nviol=$(printf '%s\n' "$out" | grep -c '^VIOLATION')
   nmach=$(printf '%s\n' "$out" | grep -c 'MACHINERY-ERROR')
   echo "$(basename "$patch") $c: violations=$nviol machinery=$nmach"
